@@ -1,12 +1,37 @@
 (** C08 — Program input blocks state exactly the molecule they were made from.
-    Property theorems only; each is closed by [exact] of a lemma from Proofs/Writers.v.
+    Property theorems only; each is closed by [exact] of a lemma from Proofs/Writers*.v.
     Model: Model/Writers.v ([to_lines] = the structured lines of to_string; [render_text] = its characters,
     compared byte for byte with the implementation on every run) over Gen/WriterTables.v (regenerated from
-    to_string.py on every run: formats, unit words, keyword dictionaries, unit-factor branch [gen_factor]). *)
+    to_string.py on every run: formats, unit words, keyword dictionaries, unit-factor branch [gen_factor]).
+
+    CLAUSE MAP (statement of C08 in properties.jsonl -> theorems; "lines" = structured lines of the model, tied
+    byte-exactly; "characters" = the rendered text re-read by an independent reader):
+    - every supported program (14 dtypes, all molecules, all configurations) ........ every theorem quantifies over cfg/m;
+      unknown dtype -> KeyError is part of [to_lines] (correspondence stream "nosuchprogram")
+    - each atom once, in the molecule's order ........................................ lines: C08_atoms_listed_once_in_order (all 14);
+      characters: C08_psi4/_xyz/_xyzplus/_qchem_text_states_the_molecule, C08_block_text_states_the_atoms (nwchem, cfour,
+      orca, madness, terachem), C08_molpro_text_states_the_atoms; gamess, mrchem, turbomole, sdf: lines only (byte-exact correspondence + Python reader)
+    - under the program's spelling for real and ghost atoms ........................... C08_program_spellings (generated templates =
+      hand-written table), [is_view] in the theorems above; molpro ghosts: C08_molpro_ghosts_declared,
+      C08_molpro_dummy_card_lists_the_ghosts
+    - coordinates = molecule's coordinates converted to the requested unit ............ [is_view] (binary64 product with [factor_of]),
+      C08_factor_table, C08_converted_value_nearest, C08_sdf_is_angstrom
+    - printed at the requested precision .............................................. C08_printed_digits_nearest; characters: [printed]
+      / [atomd_of] in the re-read theorems (sign, nearest integer, exponent -prec)
+    - total charge and multiplicity in text or keywords ............................... C08_chgmult_stated (all dtypes that have a slot);
+      characters: psi4, xyz+, qchem theorems
+    - fragment charge and multiplicity where the format has them (psi4, qchem) ........ lines: C08_fragments_stated; characters:
+      C07_roundtrip_psi4 (carried_psi4), C08_qchem_text_states_the_molecule
+    - an announced unit is the unit the coordinates are written in .................... C08_unit_word_is_written +
+      C08_announced_unit_is_written_unit (all dtypes x all spellings of bohr/angstrom/nm/pm x stored unit x pinned iutau);
+      characters: [p_units] in the psi4/xyz/xyz+/qchem theorems
+    - width / atom_format / ghost_format overrides .................................... lines (any width, any override template of the
+      modelled template language); characters only for the default templates *)
 From Coq Require Import ZArith List String Ascii Bool.
 Require Import QV.Common.Outcome QV.Common.WText QV.Common.WBin64 QV.Model.WriterTypes QV.Gen.WriterTables
                QV.Model.Writers QV.Proofs.Writers
-               QV.Model.Text QV.Proofs.TextRT QV.Proofs.TextLex QV.Proofs.TextRoundTrip QV.Proofs.TextRoundTripXyz QV.Proofs.WritersReread.
+               QV.Model.Text QV.Proofs.TextRT QV.Proofs.TextLex QV.Proofs.TextRoundTrip QV.Proofs.TextRoundTripXyz QV.Proofs.WritersReread
+               QV.Proofs.WritersBlocks.
 Import ListNotations.
 Open Scope Z_scope.
 
@@ -152,6 +177,59 @@ Theorem C08_xyzplus_text_states_the_molecule : forall cfg m text kw w r,
     /\ p_molchg p = Some (dz (m_chg m)) /\ p_molmult p = Some (m_mult m).
 Proof. exact xyzplus_text_states_the_molecule. Qed.
 
+(** qchem, on CHARACTERS: strip "$molecule" / "$end", read the lines in between with the grammar the section shares
+    with psi4 (total chg/mult, "--", fragment chg/mult, atom lines; ghosts "@El"), the unit being what the
+    [input_bohr] keyword says ([read_qchem]): for every molecule the format can carry (any number of atoms and
+    fragments, ghosts anywhere), either unit, any width / precision, the text + keyword state each atom once, in
+    order, under the program's spelling, the printed coordinates, the unit, total and per-fragment charge and
+    multiplicity. *)
+Theorem C08_qchem_text_states_the_molecule : forall cfg m text kw w r,
+  s_lower (w_dtype cfg) = "qchem"%string -> to_string_model cfg m = Ok (text, kw) ->
+  unit_word_qchem (units_of e_qchem cfg) = Some (w, r) -> qchem_fits cfg m -> mono 0 (m_seps m) ->
+  exists atoms p,
+    Forall2 (is_view "{elem}" "@{elem}" (factor_of e_qchem cfg m)) (m_atoms m) atoms
+    /\ kw_get "input_bohr" kw = Some (KVStr w) /\ read_qchem text w = Ok p
+    /\ p_elbl p = map av_label atoms /\ p_geom p = flat_map (printed (w_prec cfg)) atoms /\ p_units p = Some r
+    /\ match m_seps m with
+       | [] => p_fchg p = Some [Some (dz (m_chg m))] /\ p_fmult p = Some [Some (m_mult m)]
+       | seps => p_molchg p = Some (dz (m_chg m)) /\ p_molmult p = Some (m_mult m)
+                 /\ p_fchg p = Some (map (fun k => Some (dz (nth k (m_fchg m) 0))) (seq 0 (S (List.length seps))))
+                 /\ p_fmult p = Some (map (fun k => Some (nth k (m_fmult m) 0)) (seq 0 (S (List.length seps))))
+       end.
+Proof. exact qchem_text_states_the_molecule. Qed.
+
+(** nwchem, cfour, orca, madness, terachem, on CHARACTERS: the text is [h] header lines, one line per atom, [t]
+    trailer lines and a final newline ([block_shape]: the hand-written layout of each program's block); the reader
+    [read_block] splits the characters at newlines, reads every line of the block as "label x y z" (any one-word
+    label, NUMBER coordinates) and fails if one of them is not: it returns each atom once, in order, spelled by the
+    program's real / ghost template ([is_view]) with the printed coordinates, and the header and trailer lines are
+    the rendered non-atom lines of [to_lines] (to which C08_unit_word_is_written and C08_chgmult_stated apply).
+    [block_fits]: element symbols and labels are single words, title and symmetry word hold no newline. *)
+Theorem C08_block_text_states_the_atoms : forall cfg m text kw e h t,
+  wt_find (s_lower (w_dtype cfg)) wt_table = Some e -> block_shape (s_lower (w_dtype cfg)) = Some (h, t) ->
+  to_string_model cfg m = Ok (text, kw) -> block_fits e cfg m ->
+  exists atoms head tail,
+    Forall2 (is_view (af_of e cfg) (gf_of e cfg) (factor_of e cfg m)) (m_atoms m) atoms
+    /\ to_lines cfg m = Ok (head ++ map LAtom atoms ++ tail, kw)
+    /\ atom_entries head = [] /\ atom_entries tail = []
+    /\ read_block h t text = Some (map (rl cfg) head, map (atomd_of (w_prec cfg)) atoms, map (rl cfg) tail).
+Proof. exact block_text_states_the_atoms. Qed.
+
+(** molpro, on CHARACTERS: the atom lines stand between the line "geometry={" and the next line "}" ([read_molpro]);
+    they are the molecule's atoms, once, in order, ghosts spelled like real atoms, with the printed coordinates; the
+    lines before are the header with the unit line "{bohr}" / "{angstrom}", the lines after are the dummy card
+    (C08_molpro_ghosts_declared: exactly the ghosts) and the charge and spin cards (C08_chgmult_stated). *)
+Theorem C08_molpro_text_states_the_atoms : forall cfg m text kw e,
+  wt_find (s_lower (w_dtype cfg)) wt_table = Some e -> s_lower (w_dtype cfg) = "molpro"%string ->
+  to_string_model cfg m = Ok (text, kw) -> block_fits e cfg m ->
+  exists atoms lbl,
+    Forall2 (is_view (af_of e cfg) (gf_of e cfg) (factor_of e cfg m)) (m_atoms m) atoms
+    /\ unit_label e (units_of e cfg) = Ok lbl
+    /\ to_lines cfg m = Ok (molpro_head m lbl ++ LText "geometry={" :: map LAtom atoms ++ LText "}" :: molpro_tail m, kw)
+    /\ read_molpro text
+       = Some (map (rl cfg) (molpro_head m lbl), map (atomd_of (w_prec cfg)) atoms, map (rl cfg) (molpro_tail m) ++ [EmptyString]).
+Proof. exact molpro_text_states_the_atoms. Qed.
+
 (* ------------------------------------------------------------------------------------------ *)
 (** Non-vacuity: O / ghost H_a / H, two fragments, anion, stored in Angstrom with a pinned input_units_to_au,
     written for psi4 in Bohr at width 14, precision 6. *)
@@ -192,6 +270,49 @@ Example C08_ex_units :
   end.
 Proof. vm_compute. repeat split; auto; discriminate. Qed.
 
+(** Non-vacuity of the two re-read theorems: the same molecule written for qchem (Angstrom) and for nwchem (nm). *)
+Definition ex_cfg_q : wcfg :=
+  {| w_dtype := "QChem"; w_units := Some "angstrom"; w_afmt := None; w_gfmt := None; w_width := 12; w_prec := 4; w_conv := b64_one |}.
+Example C08_ex_qchem :
+  match to_string_model ex_cfg_q ex_mol with
+  | Ok (text, kw) =>
+      unit_word_qchem (units_of e_qchem ex_cfg_q) = Some ("False", "Angstrom") /\ kw_get "input_bohr" kw = Some (KVStr "False")
+      /\ match read_qchem text "False" with
+         | Ok p => p_elbl p = ["O"; "@H"; "H"] /\ p_units p = Some "Angstrom" /\ p_molchg p = Some (dz (-1))
+                   /\ p_fchg p = Some [Some (dz (-1)); Some (dz 0)] /\ p_seps p = Some [1%nat]
+         | Err _ => False
+         end
+  | Err _ => False
+  end.
+Proof. vm_compute. repeat split; reflexivity. Qed.
+Definition ex_cfg_n : wcfg :=
+  {| w_dtype := "nwchem"; w_units := Some "NM"; w_afmt := None; w_gfmt := None; w_width := 12; w_prec := 4; w_conv := B64 false 1 (-3) |}.
+Example C08_ex_nwchem :
+  block_shape (s_lower (w_dtype ex_cfg_n)) = Some (1, 2)%nat
+  /\ match to_string_model ex_cfg_n ex_mol with
+     | Ok (text, _) =>
+         match read_block 1 2 text with
+         | Some (head, atoms, tail) => head = ["geometry units nanometers"] /\ map a_lbl atoms = ["O"; "bqH_a"; "H"] /\ tail = [""; "end"]
+         | None => False
+         end
+     | Err _ => False
+     end.
+Proof. vm_compute. repeat split; reflexivity. Qed.
+
+Definition ex_cfg_m : wcfg :=
+  {| w_dtype := "molpro"; w_units := None; w_afmt := None; w_gfmt := None; w_width := 12; w_prec := 4; w_conv := b64_one |}.
+Example C08_ex_molpro :
+  match to_string_model ex_cfg_m ex_mol with
+  | Ok (text, _) =>
+      match read_molpro text with
+      | Some (head, atoms, tail) => head = ["{orient,noorient}"; "{symmetry,auto}"; ""; "{bohr}"] /\ map a_lbl atoms = ["O"; "H"; "H"]
+                                    /\ tail = ["dummy,2"; "set,charge=-1.0"; "set,spin=0"; ""]
+      | None => False
+      end
+  | Err _ => False
+  end.
+Proof. vm_compute. repeat split; reflexivity. Qed.
+
 Print Assumptions C08_atoms_listed_once_in_order.
 Print Assumptions C08_chgmult_stated.
 Print Assumptions C08_fragments_stated.
@@ -207,3 +328,6 @@ Print Assumptions C08_converted_value_nearest.
 Print Assumptions C08_psi4_text_states_the_molecule.
 Print Assumptions C08_xyz_text_states_the_molecule.
 Print Assumptions C08_xyzplus_text_states_the_molecule.
+Print Assumptions C08_qchem_text_states_the_molecule.
+Print Assumptions C08_block_text_states_the_atoms.
+Print Assumptions C08_molpro_text_states_the_atoms.
